@@ -364,6 +364,21 @@ def run(chk, repo, tier):
     chk.clause('C20-g', 'hex_ring yields 6*radius hexagons; hex_segments counts 1+3k(k+1)-|drop|', 3)
     chk.clause('C20-h', 'hexagonal grid: axial -> cartesian map, (row, col) = (-y, x), pitch seg_radius + seg_gap/2', 4)
     chk.clause('C20-s', 'no helper mixes two different axes of one array (package-wide shape inference over util/helper/shape/segmented)', 1)
+    fw = repo.func('util.window')
+    _, wpaths, _ = analyse(repo, fw, config={'slice': NONE, 'shape': S('shape')})
+    okw, nw, detw = True, 0, ''
+    for p in returns(wpaths):
+        if nf.strip_apps(p.ret) == S('img'):
+            continue                    # single value: returned as it is
+        nw += 1
+        a = p.ret.single_atom() if isinstance(p.ret, Poly) else None
+        good = a is not None and is_app(a, 'call:util.pad') and \
+            nf.strip_apps(dict((k.items[0].value, k.items[1]) for k in a[2]).get('array')) == S('img') and \
+            dict((k.items[0].value, k.items[1]) for k in a[2]).get('shape') == S('shape')
+        if not good:
+            okw, detw = False, f'a path returns {fmt(p.ret)[:100]} [{conds_str(p)[-80:]}]'
+    chk.ob('C20-b', 'D-flow', fw.key, 'window(shape) trims about the centre with pad (which handles cubes) on every path',
+           okw and nw > 0, detw or f'{nw} path(s)', fw.loc())
     chk.clause('C20-i', 'a drawn shape honours the shift it is given exactly (fractional shifts reach the coordinate mesh unrounded)', 3)
     for key in ('shape.circle', 'shape.hexagon', 'shape.rectangle'):
         sf, sp, _ = analyse(repo, key, config={'shift': pair('shift')}, inline=['shape.rectangle'] if key != 'shape.rectangle' else [])
